@@ -18,7 +18,8 @@ STYLE = {3: "asked for value-level changes that leave call graph/locks/loops alo
          13: "no style asked for: the most likely real-world regression of the property not tried yet, 1-15 lines on the core code paths (a last measurement in the style of rounds 1-4)",
          14: "a pull-request-sized clean-up (40-120 changed lines, 1-3 files: helper extraction, merged matches, renamed locals, new private types) with exactly one subtle behavioural change buried in it; the same agent also wrote the twin PR with that one change repaired (selftest/benign t14_*)",
          17: "asked, in the brief's own words, for changes that need something specific to manifest - a particular interleaving / race window, a fault at a particular point (panicking callback, poisoned lock, closed or full channel, pool already shut down), a multi-step API sequence, an unusual input or configuration, or two cooperating edits that each look harmless alone; no summaries of earlier changes were given",
-         18: "asked for shape-preserving small-grain changes (same calls, locks, loops, API and fields): a comparison or boundary, a wrong-but-same-typed operand, one statement moved within its function and lock region, a changed constant / default / variant / literal, or an early return / break / swallowed error - still needing a specific interleaving, fault, sequence or configuration to manifest; no summaries of earlier changes were given"}
+         18: "asked for shape-preserving small-grain changes (same calls, locks, loops, API and fields): a comparison or boundary, a wrong-but-same-typed operand, one statement moved within its function and lock region, a changed constant / default / variant / literal, or an early return / break / swallowed error - still needing a specific interleaving, fault, sequence or configuration to manifest; no summaries of earlier changes were given",
+         22: "micro-round (6 properties, one change each, 7 minutes): a change that looks like a routine equivalent respelling (clippy-style) but is not equivalent in one specific case - written after the checks had been relaxed to accept more spellings (rounds 19-21), to see whether the relaxations let wrong neighbours through"}
 n = 0
 for f in sys.argv[2:]:
     for l in open(f):
